@@ -99,6 +99,11 @@ def build_corpus(tier, rng):
             c.add_q(k, "iterops", seq + probe(), note="large")
         for a in ["count", "last", "skip:%d" % (n - 1), "skip:%d" % n, "skiprev:%d" % (n - 1), "stepby:%d" % (n - 1), "stepby:%d" % n, "take:2"]:
             c.add_q(k, "adapt", [a], note="adapter")
+    # the iterator holds two cursors and no value of the enum: it is Send + Sync even when the ENUM is not (Rc / Cell payloads, also in a
+    # disabled variant); structured payload types ride along
+    defs.append((3, Item("E", [Variant("A", "tuple", [Field("std::rc::Rc<u8>")]), Variant("B", "unit"), Variant("C", "named", [Field("std::cell::Cell<u8>", "f")])]), "not-send"))
+    defs.append((2, Item("E", [Variant("A", "unit"), Variant("Off", "tuple", [Field("std::rc::Rc<u8>")], [DISABLED]), Variant("B", "tuple", [Field("()"), Field("[u8; 3]"), Field("(u8, bool)")])]), "not-send"))
+    defs.append((2, Item("E", [Variant("A", "tuple", [Field("std::cell::Cell<u8>")]), Variant("B", "unit")], cparams=1), "not-send"))
     for n, it, fam in defs:
         k = c.add_def(it, family=fam, derives=["EnumIter"], n=n)
         c.add_q(k, "struct", ["EnumIter"], note="structure")
